@@ -5,6 +5,7 @@ package sym
 import (
 	"crypto/md5"
 	"crypto/sha1"
+	"go/types"
 	"net"
 	"regexp"
 )
@@ -205,4 +206,27 @@ func deepCopyVal(v value, memo map[*value]*value) value {
 		return iface{t: x.t, v: deepCopyVal(x.v, memo)}
 	}
 	return v
+}
+
+func init() {
+	externals["reflect.TypeOf"] = func(m *Machine, fr *frame, a []value) value {
+		itf := a[0].(iface)
+		if itf.t == nil {
+			return iface{}
+		}
+		return m.reflectType(itf.t)
+	}
+}
+
+// reflectType wraps a types.Type as a reflect.Type interface value.
+func (m *Machine) reflectType(t types.Type) value {
+	pkg := m.P.Prog.ImportedPackage("reflect")
+	if pkg == nil {
+		panic(unsupported{"reflect package not loaded"})
+	}
+	rt := pkg.Type("rtype")
+	if rt == nil {
+		panic(unsupported{"reflect.rtype not found"})
+	}
+	return iface{t: types.NewPointer(rt.Type()), v: rtype{t}}
 }
